@@ -207,9 +207,10 @@ func runC07(args []string) int {
 	wg.Wait()
 	ue, uo := c07Unique(r)
 	ke, ko := c07Kinds(r)
+	ae, ao := c07Arrays(r)
 	r.Coverage["composite_matcher_requests_per_kind_compared"] = ke
-	r.Coverage["evaluations"] = evals + ue + ke
-	r.Coverage["distinct_nontrivial"] = len(outcomes) + uo + ko
+	r.Coverage["evaluations"] = evals + ue + ke + ae
+	r.Coverage["distinct_nontrivial"] = len(outcomes) + uo + ko + ao
 	r.Coverage["rule"] = "one evaluation = one request answered by the indexed twin and by the plain twin after the same history (or one write judged against the uniqueness reference); index sets x document sets x mutation histories (<=2 steps) x every filter/order/limit term of the grammar; distinct_nontrivial = distinct (index config, request, non-empty result)"
 	r.Coverage["index_configs"] = len(configs)
 	r.Coverage["document_sets"] = len(sets)
